@@ -175,6 +175,18 @@ def check_reconstruction(conf, rec, what):
     rec_walk(rec, conf, ())
 
 
+def _assign(dst, src, leafwise):
+    """Make the live model `dst` equal to `src` in place."""
+    from pydantic import BaseModel
+
+    for name in type(src).model_fields:
+        a, b = getattr(dst, name), getattr(src, name)
+        if leafwise and isinstance(a, BaseModel) and type(a) is type(b):
+            _assign(a, b, True)
+        else:
+            setattr(dst, name, b)
+
+
 def body_header(case):
     from astropy.table import Table
 
@@ -184,9 +196,16 @@ def body_header(case):
     tmp = tempfile.mkdtemp(prefix="nssverif_c16_")
     labels = set()
     try:
+        held = None
         for n, cd in enumerate(case["configs"]):
             with cut("NssConfig(**fields)"):
                 conf = NssConfig(**cd)
+            # a scan re-uses ONE configuration object and edits it between runs (whole sections re-bound, or leaf by leaf)
+            if case.get("reuse") and held is not None:
+                _assign(held, conf, case["reuse"] == "leaf")
+                conf = held
+                labels.add("one_config_object_edited_between_writes")
+            held = conf
             with cut("results_table.init"):
                 tab = results_table.init(conf)
             # results are normally written to the same output path again and again (overwrite=True)
@@ -484,11 +503,11 @@ run_case = st.fixed_dictionaries(
 SUBCHECKS = [
     SubCheck(
         "header",
-        st.fixed_dictionaries({"configs": st.lists(config_dict(), min_size=1, max_size=3), "same_path": st.sampled_from([True, True, False])}),
+        st.fixed_dictionaries({"configs": st.lists(config_dict(), min_size=1, max_size=3), "same_path": st.sampled_from([True, True, False]), "reuse": st.sampled_from([None, None, "top", "leaf"])}),
         body_header,
         lambda labels: bool(labels & {"lat!=long", "PowerSpectrum", "long_string"}),
         {"quick": 150, "thorough": 6000},
-        doc="results_table.init(config) -> FITS -> read: complete flattened configuration (and nothing else) under 'Config ...'; config_from_fits agrees on every field it sets; several configurations per process",
+        doc="results_table.init(config) -> FITS -> read: complete flattened configuration (and nothing else) under 'Config ...'; config_from_fits agrees on every field it sets; several configurations per process, also as ONE configuration object edited in place between the writes",
     ),
     SubCheck(
         "tables",
